@@ -14,6 +14,11 @@ def run(cmd, **kw):
     return subprocess.run(cmd, capture_output=True, text=True, **kw)
 
 
+def pyenv(wt):
+    """demo programs must import the worktree's mouette, not the editable install of /repo"""
+    return dict(os.environ, PYTHONPATH=wt)
+
+
 def evaluate(name, tier, demo):
     d = os.path.join(SEEDED, name)
     meta = json.load(open(os.path.join(d, "meta.json")))
@@ -29,7 +34,7 @@ def evaluate(name, tier, demo):
             out["error"] = "patch does not apply: " + r.stderr[-300:]
             return out
         if demo and os.path.exists(os.path.join(d, "demo.py")):
-            r = run(["/venv/bin/python", "-B", os.path.join(d, "demo.py")], cwd=wt, timeout=600)
+            r = run(["/venv/bin/python", "-B", os.path.join(d, "demo.py")], cwd=wt, timeout=600, env=pyenv(wt))
             out["demo_exit_with_change"] = r.returncode
         scratch = f"/tmp/seeded_scratch_{name.replace('/', '_')}"
         env = dict(os.environ, VERIF_REPO=wt, VERIF_EVIDENCE_DIR=scratch, VERIF_REPLAY_DIR=scratch + "/replay")
